@@ -123,3 +123,54 @@ def h_nonce(c, isserver, n):
     c.ensure("aead.ciphertext", eq(got_ct, ct))
     c.ensure("aead.aad", eq(got_aad, aad))
     c.ensure("result", eq(out.value, plain))
+
+
+# ------------------------------------------------------------------------------------------------
+# header protection (RFC 9001 5.4): the packet-number bytes handed to A.3 are the unmasked ones
+
+QDi = "tlexport.quic.quic_dissector"
+QK = "tlexport.quic.quic_key_generation"
+CIPH = "cryptography.hazmat.primitives.ciphers."
+
+
+def rfc9001_mask(c, suite, hp_key, sample):
+    """RFC 9001 5.4.3 / 5.4.4, written with the library primitives (assumed contracts)"""
+    if suite == b"\x13\x03":   # ChaCha20: counter = sample[0..3], nonce = sample[4..15] (the library takes the 16 bytes), 5 zero bytes
+        enc = c.libmethod(c.lib(CIPH + "Cipher", c.lib(CIPH + "algorithms.ChaCha20", hp_key, sample), mode=None), "encryptor")
+        return c.libmethod(enc, "update", b"\x00" * 5)
+    enc = c.libmethod(c.lib(CIPH + "Cipher", c.lib(CIPH + "algorithms.AES", hp_key), c.lib(CIPH + "modes.ECB")), "encryptor")
+    return c.libmethod(enc, "update", sample)
+
+
+@harness("C16", "pkn.header_protection", functions=[QDi + ".remove_header_protection", QDi + ".byte_xor", QDi + ".byte_and",
+                                                    QK + ".make_hp_mask", QK + ".make_chacha_hp_mask"],
+         cases=[(h, s) for h in ("LONG", "SHORT") for s in (b"\x13\x01", b"\x13\x02", b"\x13\x03", b"\x13\x04", None)])
+def h_hp(c, htype, suite):
+    klen = 32 if suite in (b"\x13\x02", b"\x13\x03") else 16
+    hp_key = c.bytes("hp_key", length=klen)
+    sample = c.bytes("sample", length=16)
+    first = c.int("first_byte", 0, 255)
+    pn_offset = c.int("pn_offset", 1, 64)
+    data = c.bytes("datagram", min_len=0, max_len=1500)
+    c.assume(len_(data) >= pn_offset + 20)          # RFC 9001 5.4.2: the sample lies within the packet
+    out = c.call(QDi + ".remove_header_protection", c.enum(QP + ".QuicHeaderType", htype), sample, first, hp_key, data,
+                 pn_offset, suite)
+    c.ensure("no_raise", out.exc is None, kind="raises")
+    if out.exc is not None:
+        return
+    mask = rfc9001_mask(c, suite, hp_key, sample)
+    c.ensure("mask.at_least_5_bytes", len_(mask) >= 5)
+    fb, pn, pn_len = out.value
+    want_first = first ^ (mask[0] & (0x0f if htype == "LONG" else 0x1f))
+    c.ensure("first_byte.length", len_(fb) == 1)
+    c.ensure("first_byte.unmasked", fb[0] == want_first)
+    want_len = (want_first % 4) + 1
+    c.ensure("pn_len", pn_len == want_len)
+    c.ensure("pn.length", len_(pn) == want_len)
+    n = c.concrete(want_len)
+    for i in range(n):
+        c.ensure("pn.byte%d" % i, pn[i] == (data[pn_offset + i] ^ mask[1 + i]))
+    c.cover("reached")
+
+
+h_hp.must_cover = ["reached"]
